@@ -41,7 +41,9 @@ class PcaClassifier:
         self.n_components = n_components
         self.n_clusters = n_clusters
 
-        self._pca = PCA(n_components=n_components)
+        # The randomized solver (used for large stacks) must be reproducible and needs
+        # power iterations to be close to the exact decomposition.
+        self._pca = PCA(n_components=n_components, random_state=seed, iterated_power=4)
         self._kmeans = KMeans(n_clusters=n_clusters, random_state=seed, n_init=10)
 
     @property
